@@ -1242,3 +1242,21 @@ mod tests {
         reap_tasks(&mut joinset);
     }
 }
+
+/// Verification hook (off by default): drives the pre-handler request gate in-process, without
+/// sockets, through exactly the code path used for requests read from the network.
+#[cfg(hickory_dns_verif)]
+impl<T: RequestHandler> Server<T> {
+    #[allow(missing_docs)]
+    pub async fn verif_handle_request(
+        &self,
+        message_bytes: Bytes,
+        src_addr: SocketAddr,
+        protocol: Protocol,
+        response_handler: impl ResponseHandler,
+    ) {
+        self.context
+            .handle_request(message_bytes, src_addr, protocol, response_handler)
+            .await;
+    }
+}
